@@ -15,6 +15,7 @@ C16  Asynchronous requests (set_data / get_data).
 import MosaikProofs.Properties.C03
 import MosaikProofs.Properties.C01
 import MosaikProofs.Sched.Errors
+import MosaikProofs.Build.Invariant
 namespace Mosaik.C16
 open Mosaik
 
@@ -167,5 +168,13 @@ theorem delivered_after_t {cfg : Cfg} (hw : WFCfg cfg) (as : List Action) {s s' 
     {qd : Sid × TI} (hqd : qd ∈ (cfg.sim B).inputDelays) :
     ∀ c ∈ (s'.sims qd.1).begun, c ∉ (s.sims qd.1).begun → tb < TI.act c qd.2 :=
   C01.causal_run hw as hr he hnf hB htb hqd
+
+/-- **"with async_requests enabled from A to B"** is what `connect` makes of it: after `world.connect(a, b, …, async_requests=True)`
+between entities of started simulators - whether or not one of its attribute pairs was rejected - B is in A's `successors` and
+`successors_to_wait_for`, the two tables `asyncAllowed` reads (`asyncAllowed_iff`) -/
+theorem connect_registers_async (w : World) (c : ConnectCall) (hs : c.src < w.sims.length) (hd : c.dst < w.sims.length)
+    (hasync : c.asyncReq = true) :
+    (∃ d, (c.dst, d) ∈ ((w.connect c).1.sim c.src).succs) ∧ (∃ d, (c.dst, d) ∈ ((w.connect c).1.sim c.src).succsWait) :=
+  Build.connect_async_registers w c hs hd hasync
 
 end Mosaik.C16
